@@ -77,10 +77,11 @@ def _run_one(case):
     return r
 
 
-def _work(chunk):
+def _work(ichunk):
+    idx, chunk = ichunk
     out = {'n': 0, 'checks': 0, 'nt': set(), 'outcomes': collections.Counter(), 'fails': [], 'skipped': 0,
-           'extra': collections.Counter()}
-    for case in chunk:
+           'extra': collections.Counter(), 'idx': idx, 'pid': os.getpid(), 't0': time.time()}
+    for pos, case in enumerate(chunk):
         r = _run_one(case)
         out['n'] += 1
         out['checks'] += r.checks
@@ -97,8 +98,40 @@ def _work(chunk):
                 if k in seen:
                     continue
                 seen.add(k)
-                out['fails'].append((k, m, case, nondet))
+                out['fails'].append((k, m, case, nondet, (idx, pos)))
     return out
+
+
+def _fresh_child(conn, modname, seed, seq):
+    try:
+        _init(modname, seed)
+        r = None
+        for c in seq:
+            r = _run_one(c)
+        seen, res = set(), []
+        for k, m in (r.fails if r is not None else []):
+            if k not in seen:
+                seen.add(k); res.append((k, m))
+        conn.send(res)
+    except BaseException as e:
+        conn.send([('harness:fresh-process:%s' % type(e).__name__, repr(e))])
+    finally:
+        conn.close()
+
+
+def fresh_run(modname, seed, seq):
+    """executes the cases of seq, in order, in a NEW process forked from the coordinator (which has never called the library)
+    and returns the failures of the last one"""
+    ctx = mp.get_context('fork')
+    a, b = ctx.Pipe(duplex=False)
+    p = ctx.Process(target=_fresh_child, args=(b, modname, seed, seq))
+    p.start(); b.close()
+    try:
+        res = a.recv()
+    except EOFError:
+        res = [('harness:fresh-process:died', 'the fresh process ended without a result')]
+    p.join()
+    return res
 
 
 def chunks(it, n):
@@ -135,7 +168,24 @@ def main(argv=None):
     if a.replay:
         data = json.load(open(a.replay))
         _init(modname, data.get('seed', seed))
-        r = _run_one(data['case'])
+        case = dict(data['case'])
+        hist = case.pop('_after_call_history', None)
+        if hist:
+            # the failure needs the calls the worker had made before: regenerate those cases and execute them first
+            csz = hist['chunk_size']
+            need = set(hist['chunks'])
+            got = {}
+            for ci, ch in enumerate(chunks(mod.cases(data.get('tier', tier)), csz)):
+                if ci in need:
+                    got[ci] = ch
+                if len(got) == len(need):
+                    break
+            for i in hist['chunks'][:-1]:
+                for x in got[i]:
+                    _run_one(x)
+            for x in got[hist['chunks'][-1]][:hist['position_in_last_chunk']]:
+                _run_one(x)
+        r = _run_one(case)
         bad = 0
         for k, m in r.fails:
             if k in known:
@@ -153,7 +203,7 @@ def main(argv=None):
     if hasattr(mod, 'explore'):
         res = mod.explore(tier, seed, a.jobs)
         coverage = res['coverage']
-        fails = [(k, m, c, False) for (k, m, c) in res['fails']]
+        fails = [(k, m, c, False, None) for (k, m, c) in res['fails']]
         exhaustive = coverage.get('exhaustive', True)
     else:
         n = checks = skipped = 0
@@ -171,7 +221,7 @@ def main(argv=None):
 
         def feeder():
             nonlocal total_generated, exhaustive
-            for c in chunks(gen, csize):
+            for ci, c in enumerate(chunks(gen, csize)):
                 if budget and time.time() - t0 > budget:
                     exhaustive = False
                     return
@@ -181,8 +231,9 @@ def main(argv=None):
                     samples.append(c[0])
                 feeder.last = c[-1]
                 total_generated += len(c)
-                yield c
+                yield (ci, c)
         feeder.last = None
+        chunk_log = {}
         def results():
             if a.jobs <= 1:
                 _init(modname, seed)
@@ -211,6 +262,7 @@ def main(argv=None):
                 n += out['n']; checks += out['checks']; skipped += out['skipped']
                 nt |= out['nt']; outcomes.update(out['outcomes']); extra.update(out['extra'])
                 fails.extend(out['fails'])
+                chunk_log[out['idx']] = (out['pid'], out['t0'])
         except Exception as e:
             print('ERROR worker pool failed (%r): the run is incomplete and nothing it found is reported as a verdict' % (e,))
             return 2
@@ -237,8 +289,55 @@ def main(argv=None):
             coverage['budget_s'] = budget
 
     # classify failures
+    # failing cases whose re-execution in the same worker gave different failures: decide in fresh processes whether the
+    # library carries state across calls (reproducible from a clean process, or reproducible after the same call history)
+    # or the harness is nondeterministic (exit 2)
+    nd_cases = collections.OrderedDict()
+    for k, m, c, nd, where in fails:
+        if nd:
+            nd_cases.setdefault(case_key(c), (c, where))
+    resolved = {}
+    if nd_cases and not hasattr(mod, 'explore'):
+        for ck, (c, where) in list(nd_cases.items())[:12]:
+            f1 = fresh_run(modname, seed, [c]); f2 = fresh_run(modname, seed, [c])
+            if f1 and [k for k, _ in f1] == [k for k, _ in f2] and not any(k.startswith('harness:') for k, _ in f1):
+                resolved[ck] = ('clean', f1, None)
+                continue
+            # not reproducible from a clean process: replay what the worker had executed before (its chunks, in order)
+            if where is None or where[0] not in chunk_log:
+                continue
+            wpid, wt0 = chunk_log[where[0]]
+            mine = sorted((t, i) for i, (p_, t) in chunk_log.items() if p_ == wpid and t <= wt0)
+            want_idx = [i for _, i in mine]
+            g2 = mod.cases(tier)
+            if a.limit:
+                g2 = itertools.islice(g2, a.limit)
+            got = {}
+            for ci, ch in enumerate(chunks(g2, csize)):
+                if ci in want_idx:
+                    got[ci] = ch
+                if len(got) == len(want_idx):
+                    break
+            seq = [x for i in want_idx[:-1] for x in got.get(i, [])] + got.get(where[0], [])[:where[1] + 1]
+            h1 = fresh_run(modname, seed, seq); h2 = fresh_run(modname, seed, seq)
+            if h1 and [k for k, _ in h1] == [k for k, _ in h2] and not any(k.startswith('harness:') for k, _ in h1):
+                resolved[ck] = ('history', h1, {'chunks': want_idx, 'chunk_size': csize, 'position_in_last_chunk': where[1], 'preceding_cases': len(seq) - 1})
     by_key = collections.OrderedDict()
-    for k, m, c, nd in fails:
+    done_nd = set()
+    for k, m, c, nd, where in fails:
+        ck = case_key(c)
+        if nd and ck in resolved:
+            if ck in done_nd:
+                continue
+            done_nd.add(ck)
+            kind, fl, hist = resolved[ck]
+            for k2, m2 in fl:
+                if kind == 'clean':
+                    by_key.setdefault(k2, []).append((m2 + '\n(reproduced twice in fresh processes; executing the case again in the same process gives a different outcome: the library keeps state across calls)', c))
+                else:
+                    cc = dict(c); cc['_after_call_history'] = hist
+                    by_key.setdefault('after-earlier-calls:' + k2, []).append((m2 + '\n(passes in a fresh process; fails, reproducibly, after the %d cases the worker had executed before it: the library keeps state across calls)' % hist['preceding_cases'], cc))
+            continue
         nondet_any |= nd
         by_key.setdefault(k, []).append((m, c))
     os.makedirs(os.path.join(OUT, 'replays', pid), exist_ok=True)
